@@ -470,3 +470,72 @@ pub fn empty_relays_rollback_prelude(p: &mut Plan, observer_sql: bool) {
     p.ops = pre;
     p.ops.extend(tail);
 }
+
+/// Directed prelude (C05): the admin creates a commit of its own (an addition or a rename) and has
+/// not merged it yet when a member's request to leave arrives; then the admin's own commit comes
+/// back from the relay and everybody catches up. The admin's operation must have done what it
+/// named - no more (the leaver is still there unless somebody commits the request), no less.
+pub fn leave_meets_pending_commit_prelude(p: &mut Plan, rename: bool) {
+    use crate::world::DataChange;
+    p.setup.members = 3;
+    p.setup.admin_mask = 1;
+    p.setup.regime = Regime::Causal;
+    p.setup.side = 0;
+    p.setup.spares = p.setup.spares.max(1);
+    let n_act = 3 + p.setup.spares as u32;
+    let act = |i: u32| (((i << 16) / 3) + 1) as u16;
+    let mem = |i: u32| (((i << 16) / n_act) + 1) as u16;
+    let own = if rename {
+        Op::Data { m: act(0), ts: 1, apply: Apply::Echo, change: DataChange::Name(7) }
+    } else {
+        Op::Add { m: act(0), ts: 1, apply: Apply::Echo, extra: 0 }
+    };
+    let pre = vec![
+        own,
+        Op::Leave { m: act(1), ts: 2 },
+        // the admin sees the request (the newest event), its own commit still unmerged
+        Op::Deliver { m: mem(0), sel: u16::MAX },
+        Op::SelfEcho { m: mem(0) },
+        Op::CatchUp { m: mem(2) },
+        Op::CatchUp { m: mem(1) },
+        Op::CatchUp { m: mem(0) },
+    ];
+    p.ops.truncate(25);
+    let tail = std::mem::take(&mut p.ops);
+    p.ops = pre;
+    p.ops.extend(tail);
+}
+
+/// Directed prelude (C01): a fork exactly as deep as the configured window. The creator's commit
+/// K (earliest timestamp) stays unseen while another admin builds a chain of `retention` commits
+/// on the same epoch; a bystander follows that chain, then both meet K: everybody must roll back
+/// `retention` epochs and converge on K.
+pub fn deep_fork_prelude(p: &mut Plan, longer: bool) {
+    use crate::world::DataChange;
+    p.setup.members = 3;
+    p.setup.admin_mask |= 1;
+    p.setup.regime = Regime::Unrestricted;
+    p.setup.side = 0;
+    p.setup.twin = false;
+    p.setup.cfg.retention = if longer { 6 } else { 5 };
+    let d = p.setup.cfg.retention as u32;
+    let n_act = 3 + p.setup.spares as u32;
+    let act = |i: u32| (((i << 16) / 3) + 1) as u16;
+    let mem = |i: u32| (((i << 16) / n_act) + 1) as u16;
+    let mut pre = vec![Op::Data { m: act(0), ts: 0, apply: Apply::Immediate, change: DataChange::Name(9) }];
+    for _ in 0..d {
+        pre.push(Op::SelfUpdate { m: act(1), ts: 3, apply: Apply::Immediate });
+    }
+    // the bystander takes the chain link by link (K stays first in its queue, untouched)
+    for k in 0..d {
+        let len = d + 1 - k; // K and the links not yet taken
+        pre.push(Op::Deliver { m: mem(2), sel: (((1u32 << 16) / len) + 1) as u16 });
+    }
+    pre.push(Op::Deliver { m: mem(2), sel: 0 });
+    pre.push(Op::CatchUp { m: mem(1) });
+    pre.push(Op::CatchUp { m: mem(2) });
+    p.ops.truncate(20);
+    let tail = std::mem::take(&mut p.ops);
+    p.ops = pre;
+    p.ops.extend(tail);
+}
